@@ -64,15 +64,15 @@ package net
 //@   ensures topicsAdded == old(topicsAdded) + 1
 //@   modifies topicsAdded
 //@ func (*Peer).loadAndPublishReplicators -> (err)
-//@   loop 1 invariant repUpdates == old(repUpdates) + rangeindex + 1 && sameslice(rangeslice, res(GetAllReplicators, 1, 0))
+//@   loop 1 invariant repUpdates == old(repUpdates) + rangeindex + 1 && sameslice(rangeslice, res(GetAllReplicators, 1, 0)) && rangeindex + 1 <= len(rangeslice)
 //@   loop 2 invariant forall(string(s), maphas(storedCollectionIDs, s) ==> exists(j, 0 <= j && j <= rangeindex, rangeslice[j] == s))
-//@   loop 2 invariant sameslice(rangeslice, rep.CollectionIDs) && repUpdates == old(repUpdates) + rangeindex1 + 1
+//@   loop 2 invariant sameslice(rangeslice, rep.CollectionIDs) && repUpdates == old(repUpdates) + rangeindex1 + 1 && rangeindex + 1 <= len(rangeslice) && rangeindex1 + 1 < len(rangeslice1) && sameslice(rangeslice1, res(GetAllReplicators, 1, 0))
 //@   assert before call#1 updateReplicators: arg1 == rep.Info && forall(string(s), maphas(arg2, s) ==> exists(j, 0 <= j && j < len(rep.CollectionIDs), rep.CollectionIDs[j] == s))
 //@   ensures err == nil ==> repUpdates == old(repUpdates) + len(res(GetAllReplicators, 1, 0))
 //@   modifies repUpdates
 //@   tags C14
 //@ func (*Peer).loadAndPublishP2PCollections -> (err)
-//@   loop 1 invariant sameslice(rangeslice, res(getAllP2PCollectionIDs, 1, 0)) && topicsAdded == old(topicsAdded) + rangeindex + 1
+//@   loop 1 invariant sameslice(rangeslice, res(getAllP2PCollectionIDs, 1, 0)) && topicsAdded == old(topicsAdded) + rangeindex + 1 && rangeindex + 1 <= len(rangeslice)
 //@   assert before call#1 addPubSubTopic: arg1 == res(getAllP2PCollectionIDs, 1, 0)[rangeindex + 1] && arg2
 //@   ensures err == nil ==> topicsAdded == old(topicsAdded) + len(res(getAllP2PCollectionIDs, 1, 0))
 //@   modifies topicsAdded
